@@ -253,11 +253,16 @@ def reach_vec(n: int, i: int) -> int:
 import itertools
 
 DEC = [1.0, 10.0, 100.0, 1000.0, 10000.0, 100000.0, 1000000.0, 10000000.0]
-_F = chstubs.PIN.get("f")  # shard's function (None in a concrete replay: every template is built)
+import os
+
+_F = chstubs.PIN.get("f")  # the extended-family function this CrossHair shard runs (set by props/c23.py)
+_SHARD = "VERIF_PIN" in os.environ  # vk.chx always sets it for a shard; unset = concrete replay / sweep in the main process
 
 
 def _want(*names):
-    return _F is None or _F in names
+    """Parse the templates of an extended-family function only where they are needed: in its own shards, and in
+    the main process (replay / sweep), where every template is built."""
+    return (not _SHARD) or _F in names
 
 
 def _call(m, **given):
